@@ -384,7 +384,7 @@ Definition dispatch (s : state) (who : option bytes) (c : cmd) (fresh_key : byte
           end
       end
   | CFlush =>
-      match (if auth_ident_flush then hcheck true who (writer_role pc) else None) with
+      match (if auth_ident_flush then hcheck true who (is_admin pc) else None) with
       | Some o => (o, s)
       | None => (OExec, s)
       end
